@@ -1014,6 +1014,7 @@ func run(cx *lib.Ctx) {
 		runCase(cx, cx.R.U64(), i < 1)
 	}
 	histgen.Run(cx, "C04")
+	histgen.RunDynOptions(cx, "C04")
 	corrBody(cx)
 	corrMerged(cx)
 }
